@@ -456,6 +456,17 @@ def x_read_push(body):
                 rd["_leaf"] = l
                 rd.update(field=None, exact=False, opt=False)
                 return [("leaf", rd)]
+        # PLACE.push(Some(r.read_T()?)): the value read is the value pushed
+        if k == "MethodCall" and n["method"] == "push" and (declared(n) or "").startswith("arrow2::array::MutablePrimitiveArray::<T>::push") and len(n.get("args", [])) == 1:
+            a = strip(n["args"][0])
+            if a.get("k") == "Call" and (declared(a) or "").endswith("Some") and len(a["args"]) == 1 and a["args"][0].get("k") == "Try":
+                rd = read_call(a["args"][0])
+                if rd is not None:
+                    f = field_of_self(n["recv"])
+                    if f is None:
+                        raise Unsupported(n, "push into something that is not a column of self")
+                    rd.update(field=f, exact=True, opt=through_option(n["recv"]))
+                    return [leaf(**rd)]
         # PLACE.push(Some(x)) for a pending x
         if k == "MethodCall" and n["method"] == "push":
             for name, rd in list(st["pending"].items()):
@@ -652,6 +663,13 @@ def then_gate(e):
             el = strip_try(e["else"])
             if t.get("k") == "Call" and (declared(t) or "").endswith("Some") and el.get("k") == "Path" and (el.get("path") or "").endswith("None"):
                 return f, strip(t["args"][0])
+            # if c { lets..; Some(x) } else { None }  ==  c.then(|| { lets..; x })
+            if t.get("k") == "Block" and t.get("stmts") and t.get("tail") is not None and el.get("k") == "Path" and (el.get("path") or "").endswith("None"):
+                tt = strip_try(t["tail"])
+                if tt.get("k") == "Call" and (declared(tt) or "").endswith("Some") and len(tt["args"]) == 1:
+                    inner = dict(t)
+                    inner["tail"] = tt["args"][0]
+                    return f, inner
     return None
 
 
@@ -829,6 +847,8 @@ def x_from(body):
                 if d["src"] != pn:
                     raise Unsupported(e, "closure does not convert its own parameter")
                 return dict(src=base, opt=True)
+            if base and cl.get("k") == "Path" and (cl.get("path") or "") in ("std::convert::Into::into", "std::convert::From::from"):
+                return dict(src=base, opt=True)        # .map(Into::into): the same conversion, point-free
         p = place(e)
         if p and e.get("k") in ("Field", "Path"):
             return dict(src=p, opt=False, moved=True)
